@@ -447,10 +447,18 @@ pub fn gen_scenario(seed: u64, idx: usize, big: bool) -> Scenario {
 }
 
 pub fn gen_scenario_ext(seed: u64, idx: usize, big: bool, big_stderr: bool) -> Scenario {
+    gen_scenario_full(seed, idx, big, big_stderr, None)
+}
+
+/// `huge`: Some(kind) forces that scenario kind with an input of several hundred KiB (far beyond
+/// the capacity of a pipe), so that a producer can still be blocked in write(2) when the consumer leaves.
+pub fn gen_scenario_full(seed: u64, idx: usize, big: bool, big_stderr: bool, huge: Option<&str>) -> Scenario {
     let mut rng = Rng::new(mix(seed, &[tag("C18"), tag("scenario"), idx as u64]));
     let rng = &mut rng;
     let kind_roll = rng.below(100);
-    let kind = if big_stderr {
+    let kind = if let Some(k) = huge {
+        k
+    } else if big_stderr {
         "wrapped"
     } else if kind_roll < 40 {
         "stdin"
@@ -467,6 +475,12 @@ pub fn gen_scenario_ext(seed: u64, idx: usize, big: bool, big_stderr: bool) -> S
     let mut gp = gen::random_params(rng, opts.line_buffer_size.min(8));
     if big {
         gp.sections = (0..rng.range(8, 14)).map(|_| *rng.pick(&[gen::SectionKind::Modified, gen::SectionKind::Added, gen::SectionKind::Deleted])).collect();
+        gp.max_run = 60;
+        gp.max_hunks = 4;
+    }
+    if huge.is_some() {
+        gp.flavor = gen::Flavor::Git;
+        gp.sections = (0..rng.range(60, 80)).map(|_| *rng.pick(&[gen::SectionKind::Modified, gen::SectionKind::Added, gen::SectionKind::Deleted])).collect();
         gp.max_run = 60;
         gp.max_hunks = 4;
     }
@@ -514,7 +528,7 @@ pub fn gen_scenario_ext(seed: u64, idx: usize, big: bool, big_stderr: bool) -> S
         }
         "diff2" => {
             // delta A B: stub git prints a diff and exits like `git diff --no-index`
-            let st = *rng.pick(&[0, 1, 1, 1, 2, 3]);
+            let st = if huge.is_some() { 1 } else { *rng.pick(&[0, 1, 1, 1, 2, 3]) };
             sub = format!("status{}", st);
             expect_exit = st;
             spec.files = vec![("a.txt".into(), Blob::from("one\n")), ("b.txt".into(), Blob::from("two\n"))];
@@ -538,7 +552,7 @@ pub fn gen_scenario_ext(seed: u64, idx: usize, big: bool, big_stderr: bool) -> S
                 ("git", &["diff", "--stat", "-p"]),
                 ("rg", &["fn", "src"]),
             ];
-            let (bin, a) = *rng.pick(cmds);
+            let (bin, a) = if huge.is_some() { cmds[0] } else { *rng.pick(cmds) };
             sub = format!("{}-{}", bin, a[0]);
             let st = *rng.pick(&[0, 0, 1, 2, 3, 128, 129, 255]);
             expect_exit = st;
@@ -663,6 +677,7 @@ fn run_one(env: &Env, ctx: &Ctx, s: &Scenario, f: &Fault, refi: &RefInfo) -> Out
 }
 
 pub struct Budget {
+    pub huge_k_samples: usize,
     pub scenarios: usize,
     pub big_scenarios: usize,
     pub max_k_per_scenario: usize,
@@ -672,9 +687,9 @@ pub struct Budget {
 
 pub fn budget(tier: &str) -> Budget {
     if tier == "thorough" {
-        Budget { scenarios: 1200, big_scenarios: 40, max_k_per_scenario: 100000, transparent_per_scenario: 4, quit_per_scenario: 3 }
+        Budget { huge_k_samples: 200, scenarios: 1200, big_scenarios: 40, max_k_per_scenario: 100000, transparent_per_scenario: 4, quit_per_scenario: 3 }
     } else {
-        Budget { scenarios: 32, big_scenarios: 2, max_k_per_scenario: 100000, transparent_per_scenario: 2, quit_per_scenario: 2 }
+        Budget { huge_k_samples: 12, scenarios: 32, big_scenarios: 2, max_k_per_scenario: 100000, transparent_per_scenario: 2, quit_per_scenario: 2 }
     }
 }
 
@@ -837,8 +852,17 @@ pub fn main_c18(env: &Env, tier: &str, seed: u64, replay: Option<&str>) -> i32 {
         let mut rng = Rng::new(mix(seed, &[tag("C18"), tag("faults"), si as u64]));
         // (a) EPIPE at every write index
         let n = refi.n_writes;
-        if n <= b.max_k_per_scenario {
+        if n <= b.max_k_per_scenario && !s.name.starts_with("huge-") {
             for k in 0..n {
+                tasks.push(Task { scenario: si, fault: Fault::Epipe { k: k as i64 } });
+            }
+        } else if n > 0 {
+            // outputs of hundreds of KiB: the first writes, the last one and a seeded sample in between
+            let mut ks: BTreeSet<usize> = [0usize, 1, 2, n - 1].iter().copied().filter(|k| *k < n).collect();
+            for _ in 0..b.huge_k_samples {
+                ks.insert(rng.range(0, n - 1));
+            }
+            for k in ks {
                 tasks.push(Task { scenario: si, fault: Fault::Epipe { k: k as i64 } });
             }
         }
@@ -966,7 +990,7 @@ pub fn main_c18(env: &Env, tier: &str, seed: u64, replay: Option<&str>) -> i32 {
 
     ev.evaluations = (refs.len() + tasks.len()) as u64;
     ev.distinct_nontrivial = distinct.len() as u64;
-    ev.rule = "one evaluation = one execution of the real delta binary under the syscall shim for a (scenario, fault) pair; EPIPE is enumerated at every output write index of the scenario's fault-free run, other fault kinds are seeded samples. distinct_nontrivial counts distinct (scenario, fault kind, fault index) triples whose fault was injected AND reached (an EPIPE planned beyond the last write, a stall that never happened etc. do not count).".into();
+    ev.rule = "one evaluation = one execution of the real delta binary under the syscall shim for a (scenario, fault) pair; EPIPE is enumerated at every output write index of the scenario's fault-free run (for the few scenarios with several hundred KiB of input: the first three writes, the last one and a seeded sample), other fault kinds are seeded samples. distinct_nontrivial counts distinct (scenario, fault kind, fault index) triples whose fault was injected AND reached (an EPIPE planned beyond the last write, a stall that never happened etc. do not count).".into();
     for (k, v) in &fired {
         ev.counters.insert(format!("fault_fired.{}", k), *v);
     }
@@ -1031,6 +1055,12 @@ fn fixed_scenarios(seed: u64) -> Vec<Scenario> {
     for j in 0..2 {
         let mut s = gen_scenario_ext(seed, 3_000_000 + j, false, true);
         s.name = format!("fixed-bigstderr{}", j);
+        v.push(s);
+    }
+    for (j, k) in ["wrapped", "diff2", "wrapped", "stdin"].iter().enumerate() {
+        let mut s = gen_scenario_full(seed, 4_000_000 + j, false, false, Some(k));
+        s.name = format!("huge-{}{}", k, j);
+        s.sub = format!("{}-huge", s.sub);
         v.push(s);
     }
     let mut i = 2_000_000;
